@@ -275,3 +275,8 @@ Lemma fref_ops_agree : forall v, fref_ops_m v = fref_ops_spec v.
 Proof. reflexivity. Qed.
 Lemma notfn_static_agree : forall v, notfn_static_m v = notfn_static_spec v.
 Proof. intros v. unfold notfn_static_m, notfn_static_spec. destruct (Z.ltb_spec v 0); destruct (Z.leb_spec 0 v); try reflexivity; lia. Qed.
+
+Lemma void_ret_agree : forall x, void_ret_m x = void_ret_spec x.
+Proof. intros x. unfold void_ret_m, void_ret_spec. lia. Qed.
+Lemma make_pair_member_agree : forall w, make_pair_member_m w = make_pair_member_spec w.
+Proof. intros [[|]|]; reflexivity. Qed.
